@@ -1,4 +1,5 @@
 import WebAuthnModel.Basic.Bytes
+import WebAuthnModel.Model.Tpm
 /-
   Programs over dependency oracles.  The repository's own logic is written in Lean; every call
   into a dependency (crypto, x509, json, url, go-tpm, go-jose, asn1) is an `ask`.  Theorems
@@ -87,7 +88,7 @@ inductive Ask where
   | asn1OctetString (der : Bytes)                        -- asn1.Unmarshal(der, &[]byte) with no rest
   | appleNonce (der : Bytes)
   | keyDescription (der : Bytes)
-  | hardwareDetailsOK (certDer : Bytes)                  -- tpm.GetHardwareDetailsFromCertificate (own model in C17)
+  | sanView (certDer : Bytes)                            -- the SAN extensions of the certificate as encoding/asn1 parses them
   | safetyNet (raw : Bytes)                              -- parse + chain validation + claims
   | jwsHeaders (raw : Bytes)                             -- jwt.ParseSigned: number of signatures/headers
   | jwsChain (raw : Bytes) (i : Nat) (pool : Nat)        -- Headers[i].Certificates(Roots: pool): leaf of the first chain
@@ -113,6 +114,7 @@ inductive Resp where
   | pubArea (p : PubAreaView)
   | keyDesc (k : KeyDescView)
   | safetyNet (s : SafetyNetView)
+  | san (exts : List Tpm.SanExt)
   deriving Repr, DecidableEq, Inhabited
 
 inductive Prog (α : Type) where
